@@ -64,7 +64,7 @@ vt_proof_pg_findspec! { unwind = 10; fn c28_tree_update_roomy() {
     tree_update::<3>([2, 3, 5], [3, 1, 2], 1, 3, PAGE_SIZE);
 }}
 
-// @vt prop=C28,C29 tier=quick feat=sp fs=600 bound="BTree::update growing a value (1 -> 3 bytes) on a NEARLY FULL root leaf of shape keys(3,3)/values(1,1): free space 2..=16 bytes in steps that straddle 'increase fits' / 'new cell fits'" outside="other shapes" timeout=1800 mem=16
+// @vt prop=C28,C29 tier=quick feat=sp fs=600 bound="BTree::update growing a value (1 -> 3 bytes) on a NEARLY FULL root leaf of shape keys(3,3)/values(1,1): free space 2..=16 bytes in steps that straddle 'increase fits' / 'new cell fits'" outside="other shapes" timeout=1800 mem=16 manual=known_replays/manual_tree_update_grow_loses_entry.rs
 vt_proof_pg_findspec! { unwind = 10; fn c28_tree_update_grow_nearly_full() {
     // cells: 2 * (3+1+1) = 10 bytes below top; header+slots = 24 + 16 = 40; free = top - 10 - 40
     let which: u8 = kani::any(); kani::assume(which < 4);
